@@ -2521,5 +2521,141 @@ theorem unwrapNodes_good {c : Dag} {P : Paths} (g : Good c P) :
     exact (g.inv.op_wf i op hop).wrapper_key hkey
   · rw [if_neg hh]; exact ⟨P, g, rfl⟩
 
+
+/-! ## what DagInv says about the graph -/
+
+/-- a node without in-edges is a register input, and conversely -/
+theorem Good.source_iff {c : Dag} {P : Paths} (g : Good c P) {n : NodeId} (hn : n ∈ c.nodeIds) :
+    (∀ a, ¬ c.E a n) ↔ ∃ r, n = .inp r := by
+  constructor
+  · intro hsrc
+    cases n with
+    | inp r => exact ⟨r, rfl⟩
+    | out r =>
+      exfalso
+      have hl := (g.inv.out_iff r).mp hn
+      exact hsrc _ ⟨lastEdge P r, g.inv.lastEdge_mem hl, rfl, rfl⟩
+    | op i =>
+      exfalso
+      obtain ⟨op, hop⟩ := mem_nodeIds.mp hn
+      have hwf := g.inv.op_wf i op hop
+      obtain ⟨k, hk⟩ := List.exists_mem_of_ne_nil _ hwf.qregs_ne
+      have hon := (g.mem.mem_q i op hop k (hwf.qregs_quantum k hk)).mpr hk
+      obtain ⟨a, _, ha, _⟩ := g.inv.op_neighbours hon
+      exact hsrc a ⟨⟨a, .op i, k⟩, (g.inv.edges_iff _).mpr ha, rfl, rfl⟩
+  · rintro ⟨r, rfl⟩ a; exact g.inv.inp_source r a
+
+/-- a node without out-edges is a register output, and conversely -/
+theorem Good.sink_iff {c : Dag} {P : Paths} (g : Good c P) {n : NodeId} (hn : n ∈ c.nodeIds) :
+    (∀ b, ¬ c.E n b) ↔ ∃ r, n = .out r := by
+  constructor
+  · intro hsnk
+    cases n with
+    | out r => exact ⟨r, rfl⟩
+    | inp r =>
+      exfalso
+      have hl := (g.inv.inp_iff r).mp hn
+      obtain ⟨mid, hP, _⟩ := g.inv.shape r hl
+      have : ∃ y, Consec (P r) (.inp r) y := by
+        rw [hP]
+        cases mid with
+        | nil => exact ⟨.out r, by simp [consec_cons_cons]⟩
+        | cons m t => exact ⟨m, by simp [consec_cons_cons]⟩
+      obtain ⟨y, hy⟩ := this
+      exact hsnk y ⟨⟨.inp r, y, r⟩, (g.inv.edges_iff _).mpr hy, rfl, rfl⟩
+    | op i =>
+      exfalso
+      obtain ⟨op, hop⟩ := mem_nodeIds.mp hn
+      have hwf := g.inv.op_wf i op hop
+      obtain ⟨k, hk⟩ := List.exists_mem_of_ne_nil _ hwf.qregs_ne
+      have hon := (g.mem.mem_q i op hop k (hwf.qregs_quantum k hk)).mpr hk
+      obtain ⟨_, b, _, hb⟩ := g.inv.op_neighbours hon
+      exact hsnk b ⟨⟨.op i, b, k⟩, (g.inv.edges_iff _).mpr hb, rfl, rfl⟩
+  · rintro ⟨r, rfl⟩ b; exact g.inv.out_sink r b
+
+/-- number of input nodes of a type = the register count of that type -/
+theorem Inv.input_count {c : Dag} {P : Paths} (h : Inv c P) (t : RegType) :
+    (c.nodeIds.filter (fun n => match n with | .inp r => r.ty = t | _ => false)).length = c.regs t := by
+  let f := fun n : NodeId => match n with | .inp r => decide (r.ty = t) | _ => false
+  have hnd1 : (c.nodeIds.filter f).Nodup := h.ids_nodup.filter _
+  let l2 := (List.range (c.regs t)).map (fun j => NodeId.inp ⟨t, j⟩)
+  have hnd2 : l2.Nodup := nodup_map_of_inj (fun a b e => by injection e with e; injection e) List.nodup_range
+  have hsub1 : c.nodeIds.filter f ⊆ l2 := by
+    intro n hn
+    obtain ⟨hn1, hn2⟩ := List.mem_filter.mp hn
+    cases n with
+    | inp r =>
+      have hrt : r.ty = t := by simpa [f] using hn2
+      have hl := (h.inp_iff r).mp hn1
+      apply List.mem_map.mpr
+      refine ⟨r.idx, ?_, ?_⟩
+      · rw [List.mem_range]; unfold live at hl; rw [hrt] at hl; exact hl
+      · cases r; simp at hrt; subst hrt; rfl
+    | out r => simp [f] at hn2
+    | op i => simp [f] at hn2
+  have hsub2 : l2 ⊆ c.nodeIds.filter f := by
+    intro n hn
+    obtain ⟨j, hj, rfl⟩ := List.mem_map.mp hn
+    rw [List.mem_range] at hj
+    apply List.mem_filter.mpr
+    exact ⟨(h.inp_iff ⟨t, j⟩).mpr hj, by simp [f]⟩
+  have h1 := hnd1.length_le_of_subset hsub1
+  have h2 := hnd2.length_le_of_subset hsub2
+  have hlen : l2.length = c.regs t := by simp [l2]
+  show (c.nodeIds.filter f).length = c.regs t
+  omega
+
+/-! ## `find_incompatible_edges` under the networkx specification -/
+
+/-- recorded specification of `nx.ancestors(G, n)`: the nodes with a non-empty path to `n` -/
+def AncSpec (c : Dag) (n : NodeId) (anc : List NodeId) : Prop := ∀ x, x ∈ anc ↔ TransGen c.E x n
+
+/-- recorded specification of `nx.descendants(G, n)`: the nodes reachable from `n` by a non-empty path -/
+def DescSpec (c : Dag) (n : NodeId) (desc : List NodeId) : Prop := ∀ x, x ∈ desc ↔ TransGen c.E n x
+
+/-- an edge the circuit does **not** report incompatible with `first` has no path from the head of `first` to its
+    tail and none from its head to the tail of `first` — exactly the hypotheses of `InsertOK.compat` -/
+theorem compatible_no_path {c : Dag} {first e2 : Edge} {anc desc : List NodeId} {L : List Edge}
+    (hanc : AncSpec c first.src anc) (hdesc : DescSpec c first.dst desc)
+    (hL : c.findIncompatibleEdgesWith anc desc first = .ok L) (he2 : e2 ∈ c.edges) (hcompat : e2 ∉ L) :
+    ¬ ReflTransGen c.E first.dst e2.src ∧ ¬ ReflTransGen c.E e2.dst first.src := by
+  unfold findIncompatibleEdgesWith at hL
+  split at hL
+  · simp at hL
+  · injection hL with hL
+    subst hL
+    rw [List.mem_eraseDups] at hcompat
+    simp only [List.mem_append, List.mem_cons, List.mem_flatMap, not_or] at hcompat
+    constructor
+    · intro hr
+      rcases reflTransGen_iff_eq_or_transGen.mp hr with heq | ht
+      · exact hcompat.2.1 (by simp [outEdges, he2, heq])
+      · exact hcompat.2.2 ⟨e2.src, (hdesc _).mpr ht, by simp [outEdges, he2]⟩
+    · intro hr
+      rcases reflTransGen_iff_eq_or_transGen.mp hr with heq | ht
+      · exact hcompat.1.2.1 (by simp [inEdges, he2, heq])
+      · have : TransGen c.E e2.src first.src := TransGen.head ⟨e2, he2, rfl, rfl⟩ ht
+        exact hcompat.1.2.2 ⟨e2.src, (hanc _).mpr this, by simp [outEdges, he2]⟩
+
+/-! ## any linear extension runs along every wire in wire order -/
+
+/-- recorded specification of `nx.topological_sort`: position function `pos` of a linear extension -/
+def LinearExt (c : Dag) (pos : NodeId → Nat) : Prop := ∀ e ∈ c.edges, pos e.src < pos e.dst
+
+theorem pos_lt_of_before {c : Dag} {P : Paths} (h : Inv c P) {pos : NodeId → Nat} (hlin : LinearExt c pos) (k : Reg) :
+    ∀ (l1 l2 l3 : List NodeId) (x y : NodeId), P k = l1 ++ x :: (l2 ++ y :: l3) → pos x < pos y := by
+  intro l1 l2
+  induction l2 generalizing l1 with
+  | nil =>
+    intro l3 x y hP
+    have hc : Consec (P k) x y := consec_iff_append.mpr ⟨l1, l3, by simpa using hP⟩
+    exact hlin ⟨x, y, k⟩ ((h.edges_iff ⟨x, y, k⟩).mpr hc)
+  | cons z t ih =>
+    intro l3 x y hP
+    have hc : Consec (P k) x z := consec_iff_append.mpr ⟨l1, t ++ y :: l3, by simpa using hP⟩
+    have h1 : pos x < pos z := hlin ⟨x, z, k⟩ ((h.edges_iff ⟨x, z, k⟩).mpr hc)
+    have h2 : pos z < pos y := ih (l1 ++ [x]) l3 z y (by simpa using hP)
+    omega
+
 end Dag
 end Graphiq
